@@ -304,6 +304,9 @@ class Interp:
         self.interpreted = {}     # qualname -> source info (functions whose AST was executed)
         from . import stubs
         stubs.install(self)
+        from . import regex
+        regex.install(self)
+        self.closures = {}        # qualname -> interpreted nested functions created so far
 
     # ------------------------------------------------------------------ registry
     def register_stub(self, obj, stub):
@@ -641,6 +644,7 @@ class Interp:
         defaults = tuple(self.eval(d, frame) for d in st.args.defaults)
         kwdefaults = {a.arg: self.eval(d, frame) for a, d in zip(st.args.kwonlyargs, st.args.kw_defaults) if d is not None}
         clo = Closure(self, st, frame, frame.qualname + ".<locals>." + st.name, defaults, kwdefaults)
+        self.closures[clo.__qualname__] = clo
         fnv = clo
         for dec in reversed(st.decorator_list):
             d = self.eval(dec, frame)
@@ -898,6 +902,10 @@ class Interp:
                 vals = [value.at(i) for i in range(n)]
         elif isinstance(value, Unknown):
             vals = [Unknown(value.why + "[%d]" % i) for i in range(n)]
+        elif isinstance(value, S.ManyParts):
+            if n <= 2:
+                raise ValueError("too many values to unpack (expected %d)" % n)
+            raise Unsupported("unpacking >2 parts of a symbolic split")
         elif isinstance(value, Sym) and value.kind != "str":
             raise TypeError("cannot unpack non-iterable %s object" % {"int": "int", "real": "float", "bool": "bool"}[value.kind])
         else:
